@@ -159,7 +159,7 @@ def main(tier, seed):
         return res.finish()
     wdir = os.path.join(bdir, "verif-work", "c01-%d" % os.getpid())
     os.makedirs(wdir, exist_ok=True)
-    nfiles = 150 if tier == "quick" else 20000
+    nfiles = 600 if tier == "quick" else 20000
     evals = 0
     nontrivial = 0
     fails = 0
